@@ -19,8 +19,9 @@ def model_cfg(V, clsets, sizefns, mode, emit):
                 "\n".join("INVARIANT " + i for i in INVS)))
 
 
-TRACE_CFG = ("CONSTANTS\n  V = %s\n  ClSets = {}\n  SizeFns = {}\n  Mode = \"any\"\n  EmitTrees = FALSE\n"
+TRACE_CFG = ("CONSTANTS\n  V = %s\n  ClSets = {}\n  SizeFns = {}\n  Mode = \"any\"\n  EmitTrees = FALSE\n  Strict = TRUE\n"
              "SPECIFICATION TraceSpec\nCONSTRAINT Marker\nPOSTCONDITION Post\nCHECK_DEADLOCK FALSE\n")
+TRACE_CFG_LENIENT = TRACE_CFG.replace("Strict = TRUE", "Strict = FALSE")
 
 
 def spell(cliques, rng, extra=True):
@@ -42,15 +43,43 @@ def spell(cliques, rng, extra=True):
     return out
 
 
-def check_jt(ctx, jt, dom_attrs, sizes, cliques_sets, order, maxcl, trees, info):
-    """Compare a constructed JunctionTree with the spec's expectation."""
+def jt_valid(jt, dom_attrs, cliques):
+    """The property's own words, evaluated directly on the object (independent of the model)."""
+    import networkx as nx
     bad = []
+    nodes = [fs(c) for c in jt.maximal_cliques()]
+    if len(set(nodes)) != len(nodes):
+        bad.append("a node is listed twice")
+    for c in cliques:
+        if not any(set(c) <= n for n in nodes):
+            bad.append("input clique %s is contained in no node" % (c,))
+    if set().union(*nodes) != set(dom_attrs) if nodes else bool(dom_attrs):
+        bad.append("attributes %s appear in no node" % sorted(set(dom_attrs) - (set().union(*nodes) if nodes else set())))
+    if any(a < b for a in nodes for b in nodes):
+        bad.append("a node contains another node")
+    g = nx.Graph()
+    g.add_nodes_from(nodes)
+    g.add_edges_from((fs(a), fs(b)) for a, b in jt.tree.edges())
+    if set(g.nodes) != set(nodes) or (nodes and not nx.is_tree(g)):
+        bad.append("the tree is not a spanning tree of the nodes")
+    else:
+        for a in dom_attrs:
+            sub = [n for n in nodes if a in n]
+            if sub and not nx.is_connected(g.subgraph(sub)):
+                bad.append("nodes containing %r are not connected" % a)
+    return bad
+
+
+def check_jt(ctx, jt, dom_attrs, sizes, cliques_sets, order, maxcl, trees, info):
+    """Property-level problems are violations; departures from the model that leave the tree valid are deviations."""
+    bad = jt_valid(jt, dom_attrs, info["cliques"])
+    dev = []
     got = [fs(c) for c in jt.maximal_cliques()]
-    if len(set(got)) != len(got) or set(got) != set(maxcl):
-        bad.append("maximal_cliques %s != spec %s" % (sorted(map(sorted, got)), sorted(map(sorted, maxcl))))
+    if set(got) != set(maxcl):
+        dev.append("maximal_cliques %s != spec %s for the reported order" % (sorted(map(sorted, got)), sorted(map(sorted, maxcl))))
     edges = fs(fs((fs(a), fs(b))) for a, b in jt.tree.edges())
     if trees is not None and edges not in trees:
-        bad.append("tree %s not among the spec's %d admissible trees" % (sorted(sorted(map(sorted, e)) for e in edges), len(trees)))
+        dev.append("tree is not one of the spec's %d maximum-weight trees" % len(trees))
     nb = jt.neighbors()
     adj = {}
     for e in edges:
@@ -58,20 +87,21 @@ def check_jt(ctx, jt, dom_attrs, sizes, cliques_sets, order, maxcl, trees, info)
         adj.setdefault(a, set()).add(b)
         adj.setdefault(b, set()).add(a)
     if {fs(k): {fs(x) for x in v} for k, v in nb.items()} != {c: adj.get(c, set()) for c in set(got)}:
-        bad.append("neighbors() differs from tree adjacency")
+        bad.append("neighbors() differs from the tree's adjacency")
     sep = jt.separator_axes()
     for (i, j), ax in sep.items():
         if len(set(ax)) != len(ax) or set(ax) != set(i) & set(j):
-            bad.append("separator_axes[%s,%s]=%s" % (i, j, ax))
+            bad.append("separator_axes[%s,%s]=%s is not the intersection" % (i, j, ax))
     if order is not None and list(jt.elimination_order) != list(order):
-        bad.append("elimination_order %s != given %s" % (jt.elimination_order, order))
-    if sorted(jt.elimination_order) != sorted(dom_attrs):
-        bad.append("elimination_order %s is not a permutation of the domain" % (jt.elimination_order,))
+        dev.append("elimination_order %s != given %s" % (jt.elimination_order, order))
     for c in jt.maximal_cliques():
         if tuple(c) != tuple(a for a in dom_attrs if a in c):
-            bad.append("clique %s not in canonical domain order" % (c,))
+            dev.append("clique %s not in canonical domain order" % (c,))
+            break
     if bad:
-        ctx.violation("JunctionTree differs from spec: " + "; ".join(bad), info, {"kind": "structure"})
+        ctx.violation("not a valid junction tree: " + "; ".join(bad[:3]), info, {"kind": "structure"})
+    elif dev:
+        ctx.deviation("JunctionTree differs from JunctionTree.tla: " + "; ".join(dev[:2]), info)
 
 
 def rand_cliques(rng, n, k, maxlen):
@@ -203,17 +233,20 @@ def run(ctx, canary=False):
         V = set(LETTERS[:n])
         for t in trs:
             t["cliques"] = [c for c in t["cliques"]]
-        res = T.validate(ctx, "jt/JTTrace.tla", TRACE_CFG % to_tla(V), trs, name="JTTrace_%d" % n,
-                         chunk=500, timeout=3600)
-        for t, (ok, reached, ln) in zip(trs, res):
+        res = T.validate2(ctx, "jt/JTTrace.tla", TRACE_CFG % to_tla(V), TRACE_CFG_LENIENT % to_tla(V), trs, name="JTTrace_%d" % n,
+                          chunk=500, timeout=3600)
+        for t, (ok, okl, reached, reachedl, ln) in zip(trs, res):
             nval += 1
-            if ok and not t.get("canary"):
+            if t.get("canary"):
+                if ok:
+                    raise_machinery("canary trace accepted: " + t["canary"])
+            elif ok:
                 ctx.traces_validated += 1
-            elif ok and t.get("canary"):
-                raise_machinery("canary trace accepted: " + t["canary"])
-            elif not t.get("canary"):
-                ctx.violation("recorded junction tree rejected by JTTrace.tla: " + T.describe_reject(t, reached),
-                              {"trace": t}, {"kind": "trace", "event": t["events"][reached - 1]["e"] if reached <= len(t["events"]) else "end"})
+            elif okl:
+                ctx.deviation("recorded junction tree is valid but not a behaviour of JunctionTree.tla: " + T.describe_reject(t, reached), t.get("info"))
+            else:
+                ctx.violation("recorded junction tree / schedule rejected by JTTrace.tla: " + T.describe_reject(t, reachedl),
+                              {"trace": t}, {"kind": "trace", "event": t["events"][reachedl - 1]["e"] if reachedl <= len(t["events"]) else "end"})
     if trs:
         ctx.sample({"code->spec trace": {k: trs[-1][k] for k in ("cliques", "mode")}, "events": trs[-1]["events"][:6]})
     ctx.extra["canary"] = canary
@@ -230,7 +263,7 @@ def replay(ctx, path):
     print("maximal_cliques:", jt.maximal_cliques())
     print("tree edges:", list(jt.tree.edges()))
     print("mp_order:", jt.mp_order())
-    res = T.validate(ctx, "jt/JTTrace.tla", TRACE_CFG % to_tla(set(info["domain"])),
+    res = T.validate(ctx, "jt/JTTrace.tla", TRACE_CFG_LENIENT % to_tla(set(info["domain"])),
                      [{"sz": info["sizes"], "cliques": [list(c) for c in info["cliques"]], "mode": "any", "events": jt_events(jt)}])
     print("JTTrace verdict:", "ACCEPT" if res[0][0] else "REJECT at %d/%d" % res[0][1:])
     return 0 if res[0][0] else 1
